@@ -163,4 +163,20 @@ CLAIMS["C05"] = {
   "technique": "Coq proof (exact characterisation of every error-collecting loop + compositional transform_error) + differential correspondence of exception trees + fault-injection oracle",
   "design_ref": "DESIGN.md 5/C05"}
 
+CLAIMS["C11"] = {
+  "text": "Props/C11.v over Model/Alias.v (a store of mutable dicts addressed by object id; a hook that edits a working dict by an ARBITRARY sequence of res[k]=v / del res[k] / res.pop(k) / "
+          "res.pop(k, None) edits, stopped wherever one raises; the working dict is a fresh copy of the argument or the argument itself according to a flag translator T1 reads off the current source: "
+          "every in-place edit of `val` in the four structure_tagged_union variants is dominated by `val = val.copy()`, the unstructure wrapper never edits its argument, the generated TypedDict hooks edit "
+          "`res` initialised by `res = o.copy()` / `res = instance.copy()`). C11_argument_never_modified: for every store, argument and edit sequence, success or failure, every object that existed "
+          "before the call -- the argument included -- keeps exactly its contents; C11_result_is_a_new_object: the returned dict did not exist before; C11_no_copy_only_without_edits: the non-copying "
+          "variants perform no edit. The model can exhibit the failure (C11_refuted_without_copy) and shows the full statement false for TypedDict payloads with unknown keys "
+          "(C11_refuted_shallow_copy_shares_untouched_values = finding F4). PARTIAL: that the remaining hooks build fresh containers (comprehensions / constructors in converters.py, cols.py, "
+          "gen/__init__.py) is not a theorem -- Python object identity is outside the value model of Conv.v -- and is decided by the ALIAS lane on the implementation: a deep identity snapshot of the "
+          "argument before/after every call (also when it raises) and the intersection of the mutable containers reachable from argument and result, minus the documented pass-throughs "
+          "(Any / untyped positions when structuring; identity TypedDicts and types BaseConverter has no hook for when unstructuring).",
+  "note": "Trusted: Coq kernel incl. vm_compute; translator T1 (section `alias`: a syntactic dominance check over four small functions and a regex over the generated-code string constants of gen/typeddicts.py); "
+          "the ALIAS lane (Python id()-based observation). Modelled-not-verified: dict.copy() is shallow and allocates a new object; CPython object identity. Print Assumptions: closed under the global context.",
+  "technique": "Coq proof (frame property of copy-then-edit hooks over an object store, for all edit sequences) + AST translator (copy dominates every in-place edit) + identity-snapshot differential testing",
+  "design_ref": "DESIGN.md 5/C11"}
+
 NOT_APPLICABLE = {}
